@@ -793,6 +793,31 @@ def _crash():
                                                  callbacks="Eq, Hash, Ord; both queues probed"),
                  covers_required=False, cost=(n + m) * (40 if dq else 8))
 
+    # continuations from the state a caught panic in the predicate of retain* leaves behind:
+    # only memory safety counts, panics of the crate are tolerated (family SAFE)
+    SOPS = [(0, "push"), (1, "change"), (2, "change_by"), (3, "remove"), (4, "pop_hi"), (5, "pop_lo"), (6, "pop_hi_if"),
+            (7, "pop_lo_if"), (8, "push_inc"), (10, "iter_mut_drop"), (20, "reads"), (21, "clear_push"),
+            (22, "drain_push"), (23, "retain_mut")]
+    for kind in ("pq", "dq"):
+        ty = KINDS[kind]["ty"]
+        dq = kind == "dq"
+        for opi, op in SOPS:
+            if not dq and op in ("pop_lo", "pop_lo_if"):
+                continue
+            heavy = dq and op in ("push", "change", "change_by", "remove", "pop_hi_if", "push_inc")
+            for n, d in ((1, 1), (2, 1), (3, 1), (3, 2), (4, 1)):
+                t = tq(n, 2 if heavy else 3, 3 if dq else 4)
+                if d == 2:
+                    t = THOROUGH if t else None
+                if t is None:
+                    continue
+                grow = 1 if op in ("push", "push_inc", "clear_push", "drain_push") else 0
+                inst(f"safe_{kind}_{op}_n{n}_d{d}", f"crash::shortmap::<{ty}, {n}, {d}>({opi}, Tables::Any)", kind, n + grow,
+                     {"C10": t}, "SAFE", meta=dict(op=op, kind=kind, n=n, map_entries_missing=d,
+                                                    pre="tables consistent, map short (after a caught panic in a retain predicate)",
+                                                    tolerated="panics of the crate (unwrap of a missing entry, checked index)"),
+                     covers_required=False, cost=(n + 1) * (50 if heavy else 10))
+
 
 _crash()
 
